@@ -26,6 +26,9 @@ import (
 //     ; B n k=v,k=~    OpenDB(db<n>).NewBatch(); Put/Delete...; Write()     (~ = delete)
 //     ; X n            s := OpenDB(db<n>); s.Close(); s.Drop()
 //     ; F id           producer.Flush(id)
+//     ; R              crash here (at this operation boundary): the producer is abandoned, a NEW SyncedPool /
+//                      flaggedproducer is created over the same databases and Initialize(names, nil)d; when that
+//                      fails (log marker Rerr) the application does not start and the rest of the history is skipped
 //
 // The producer under test (flushable.SyncedPool / flaggedproducer.Producer) runs over a
 // RECORDING kvdb.DBProducer (memorydb stores) that logs every durable operation:
@@ -251,12 +254,34 @@ func c25Run(in []string) []string {
 		})
 		return names
 	}
+	dead := false
 	for _, o := range ops {
-		if len(o) == 0 {
+		if len(o) == 0 || dead {
 			continue
 		}
 		vu.Stat(mode + "_" + o[0])
 		switch o[0] {
+		case "R":
+			before := len(w.log)
+			var err error
+			if mode == "pool" {
+				pool = flushable.NewSyncedPool(w, fk)
+				prod = pool
+				_, err = pool.Initialize(w.Names(), nil)
+			} else {
+				fp := flaggedproducer.Wrap(w, fk)
+				prod = fp
+				_, err = fp.Initialize(w.Names(), nil)
+			}
+			if err != nil {
+				// the opens of the failed Initialize change nothing; the history ends here
+				w.log = append(w.log[:before], "Rerr")
+				dead = true
+				vu.Stat(mode + "_restart_refused")
+			} else {
+				w.log = append(append(append([]string{}, w.log[:before]...), "R"), w.log[before:]...)
+				vu.Stat(mode + "_restart_ok")
+			}
 		case "O":
 			_, _ = prod.OpenDB(c25Name(o[1]))
 		case "U":
@@ -319,13 +344,13 @@ func c25Run(in []string) []string {
 	// ---- crash at every prefix of the durable log
 	var durable []string
 	for _, t := range w.log {
-		if t != "F" && t != "f" && t != "ferr" {
+		if t != "F" && t != "f" && t != "ferr" && t != "R" && t != "Rerr" {
 			durable = append(durable, t)
 		}
 	}
-	var flushIDs [][]byte
+	var flushIDs [][]byte // of the flushes that were executed (none after a refused restart)
 	for _, o := range ops {
-		if len(o) == 2 && o[0] == "F" {
+		if len(o) == 2 && o[0] == "F" && len(flushIDs) < len(snaps) {
 			flushIDs = append(flushIDs, vu.UnHex(o[1]))
 		}
 	}
@@ -404,9 +429,9 @@ func c25Val(r *rand.Rand) string {
 }
 
 // exhaustive small scope (thorough tier): every history of up to 4 operations over the alphabet
-// {put db0, put db1, delete db0, drop db0, drop db1, GetUnderlying db1, flush}, closed by a flush, in both modes
+// {put db0, put db1, delete db0, drop db0, drop db1, GetUnderlying db1, flush, restart}, closed by a flush, in both modes
 func c25Exhaustive(emit func(...string)) {
-	alpha := [][]string{{"P", "0", "61", "31"}, {"P", "1", "61", "32"}, {"D", "0", "61"}, {"X", "0"}, {"X", "1"}, {"U", "1"}, {"F"}}
+	alpha := [][]string{{"P", "0", "61", "31"}, {"P", "1", "61", "32"}, {"D", "0", "61"}, {"X", "0"}, {"X", "1"}, {"U", "1"}, {"F"}, {"R"}}
 	var rec func(mode string, depth int, cur [][]string)
 	rec = func(mode string, depth int, cur [][]string) {
 		if len(cur) > 0 {
@@ -492,7 +517,11 @@ func c25Gen(r *rand.Rand, n int, tier string, emit func(...string)) {
 					in = append(in, "B", db, strings.Join(ws, ","))
 				}
 			case x < 18:
-				in = append(in, "X", db)
+				if r.Intn(3) == 0 {
+					in = append(in, "R")
+				} else {
+					in = append(in, "X", db)
+				}
 			default:
 				flushes++
 				id := fmt.Sprintf("%02x", flushes)
